@@ -103,6 +103,7 @@ func (ex *Executor) callFunc(st *State, fr *frame, fn *ssa.Function, args []Valu
 	if fn.Origin() != nil {
 		name = fn.Origin().String()
 	}
+	name = strings.TrimSuffix(name, "$thunk")
 	cc := &callCtx{Name: name, Args: args, Sig: fn.Signature, Pos: pos, Fr: fr, Site: site}
 	if ex.SummaryHook != nil && fn != ex.Root {
 		if rs, ok := ex.SummaryHook(ex, st, fn, cc); ok {
